@@ -580,6 +580,65 @@ def scanTag (e : List Char) (line : Bool) : Mode → Int → List Char → ScanR
       | _ :: r2 => scanTag e line m' bal' r2
       | [] => .error
 
+/-! ### the tokens of a tag interior
+
+`scanTag` only says where the tag ends.  `scanPieces` runs the same steps and also records what
+`tokenize_block_or_var` makes of every character on the way: the text of each token it emits
+(identifier, number, string literal, one or two character operator, bracket) and the ASCII
+whitespace it skips between them. -/
+
+inductive Piece where
+  /-- skipped whitespace (one piece per character) -/
+  | blank (s : List Char)
+  /-- a token: its source text -/
+  | tok (s : List Char)
+  deriving Repr, DecidableEq
+
+def Piece.src : Piece → List Char
+  | .blank s => s
+  | .tok s => s
+
+def piecesSrc (ps : List Piece) : List Char := ps.flatMap Piece.src
+
+/-- the token that is being read (its text reversed) ends here -/
+def closeCur (cur : List Char) : List Piece := if cur.isEmpty then [] else [.tok cur.reverse]
+
+/-- bookkeeping for one step of `scanTag` from mode `m` to mode `m'` that consumes `c` (and, if
+    `two`, the character behind it): the pieces that are complete now and the text of the token
+    that is being read afterwards -/
+def pieceUpd (m : Mode) (c : Char) (r : List Char) (m' : Mode) (two : Bool) (cur : List Char) :
+    List Piece × List Char :=
+  let cs := if two then c :: r.take 1 else [c]
+  match tokCont m c r with
+  | .go _ => if m' = .top then ([.tok (cur.reverse ++ cs)], []) else ([], cs.reverse ++ cur)
+  | _ =>
+    if m' = .top then (closeCur cur ++ [if isAsciiWs c then .blank cs else .tok cs], [])
+    else (closeCur cur, cs.reverse)
+
+/-- `scanTag` with the pieces it passes -/
+def scanPieces (e : List Char) (line : Bool) : Mode → Int → List Char → List Char → List Piece × ScanRes
+  | m, _, [], cur => (closeCur cur, scanEof line m)
+  | m, bal, c :: r, cur =>
+    match scanStep e line m bal c r with
+    | .done res => (closeCur cur, res)
+    | .goto m' bal' false =>
+      let u := pieceUpd m c r m' false cur
+      let t := scanPieces e line m' bal' r u.2
+      (u.1 ++ t.1, t.2)
+    | .goto m' bal' true =>
+      match r with
+      | _ :: r2 =>
+        let u := pieceUpd m c r m' true cur
+        let t := scanPieces e line m' bal' r2 u.2
+        (u.1 ++ t.1, t.2)
+      | [] => (closeCur cur, .error)
+
+/-- source text of a whitespace marker -/
+def Ws.src : Ws → List Char
+  | .remove => ['-']
+  | .preserve => ['+']
+  | .dflt => []
+
 /-- the optional `-`/`+` in front of `endraw` (`skip_ws_control`) -/
 def stripMarkerIf (b : Bool) (s : List Char) : List Char :=
   match b, s with
